@@ -9,7 +9,7 @@ use std::sync::Mutex;
 
 pub const SIGMA: &[&str] = &[
     "{", "}", ":", "$", ".", "*", "<", "^", ">", "+", "-", "#", "?", "0", "1", "9", "a", "x", "X", "o", "p", "b", "e", "E",
-    "_", "z", " ", "\t", "é", "€", "😀", "\u{3000}", "\u{663}", // non-ASCII White_Space (std::fmt skips every Unicode whitespace); XID_Continue but not XID_Start (ARABIC-INDIC DIGIT THREE)
+    "_", "z", " ", "\t", "é", "€", "😀", "\u{3000}", "\u{663}", "\u{b7}", // (MIDDLE DOT: XID_Continue, neither alphabetic nor numeric) non-ASCII White_Space (std::fmt skips every Unicode whitespace); XID_Continue but not XID_Start (ARABIC-INDIC DIGIT THREE)
 ];
 
 /// index -> string over SIGMA, length-first (all strings of length 0, then 1, ...).
